@@ -147,7 +147,7 @@ fn fam_hash(cx: &mut Cx) {
     if cx.subject("hashmap:fast_string_hash", "hash", "") {
         let mut rng = cx.rng.derive("hash");
         for &n in lens.iter() {
-            for base in [0u64, 0xcbf29ce484222325, rng.next()] {
+            for base in [0u64, 1, u64::MAX, 0x8000_0000_0000_0000, 0xcbf29ce484222325, rng.next()] {
                 let s = content("ascii", n, &mut rng);
                 let pls = cx.pls1();
                 cx.case("strhash", json!({"s": bytes_json(&s), "base": limbs(base)}), json!({"len": n}), &pls, 1, n > 0, &mut |a1, _, ps, _, _| {
